@@ -8,6 +8,7 @@ import (
 	"sort"
 	"strconv"
 	"strings"
+	"sync"
 	"testing"
 )
 
@@ -346,12 +347,28 @@ type kFault struct {
 	Path string
 }
 
+var (
+	straceOnce sync.Once
+	stracePath string
+)
+
+// straceBin: strace, if it is installed and may trace here (checked once by tampering with a
+// harmless command); otherwise the system-call arms are skipped and nothing is counted for them.
 func straceBin() string {
-	p, err := exec.LookPath("strace")
-	if err != nil {
-		return ""
-	}
-	return p
+	straceOnce.Do(func() {
+		p, err := exec.LookPath("strace")
+		if err != nil {
+			return
+		}
+		tr, err := exec.LookPath("true")
+		if err != nil {
+			return
+		}
+		if exec.Command(p, "-f", "-qq", "-o", "/dev/null", "-e", "trace=getpid", "-e", "inject=getpid:error=EIO", tr).Run() == nil {
+			stracePath = p
+		}
+	})
+	return stracePath
 }
 
 func laneKApplies(base *Plan, fr *RunResult) bool {
